@@ -913,6 +913,78 @@ func init() {
 			}
 			return rv{t: s.t, p: appendLogged(cur0, add)}.enc()
 		},
+		"reflect.Copy": func(fr *frame, args []value) value {
+			d, sv := rvArg(args[0]), rvArg(args[1])
+			dk := mustKind(d, "Copy", reflect.Slice, reflect.Array)
+			if dk == reflect.Array && (d.flags&flagAddr == 0 || d.flags&flagRO != 0) {
+				reflectPanic("reflect.Copy: unaddressable or unexported array value")
+			}
+			if d.flags&flagRO != 0 || sv.flags&flagRO != 0 {
+				reflectPanic("reflect.Copy: value obtained using unexported field")
+			}
+			sk := mustKind(sv, "Copy", reflect.Slice, reflect.Array, reflect.String)
+			elemOf := func(t types.Type) types.Type {
+				switch u := t.Underlying().(type) {
+				case *types.Slice:
+					return u.Elem()
+				case *types.Array:
+					return u.Elem()
+				}
+				return types.Typ[types.Uint8]
+			}
+			det := elemOf(d.t)
+			if sk == reflect.String {
+				if b, ok := det.Underlying().(*types.Basic); !ok || b.Kind() != types.Uint8 {
+					reflectPanic("reflect.Copy: string source needs a byte destination")
+				}
+			} else if !types.Identical(det, elemOf(sv.t)) {
+				reflectPanic("reflect.Copy: " + typeString(det) + " != " + typeString(elemOf(sv.t)))
+			}
+			var dst []value
+			if dk == reflect.Slice {
+				dst, _ = d.get().([]value)
+			} else {
+				dst = []value(d.get().(array))
+			}
+			var src []value
+			switch sk {
+			case reflect.Slice:
+				src, _ = sv.get().([]value)
+			case reflect.Array:
+				src = []value(sv.get().(array))
+			default:
+				for _, b := range strBytes(sv.get()) {
+					src = append(src, b)
+				}
+			}
+			n := len(dst)
+			if len(src) < n {
+				n = len(src)
+			}
+			tmp := make([]value, n) // memmove semantics for overlapping operands
+			for i := 0; i < n; i++ {
+				tmp[i] = copyVal(det, src[i])
+			}
+			for i := 0; i < n; i++ {
+				store(det, &dst[i], tmp[i])
+			}
+			return n
+		},
+		"reflect.AppendSlice": func(fr *frame, args []value) value {
+			s, t := rvArg(args[0]), rvArg(args[1])
+			mustKind(s, "AppendSlice", reflect.Slice)
+			mustKind(t, "AppendSlice", reflect.Slice)
+			if !types.Identical(s.t.Underlying().(*types.Slice).Elem(), t.t.Underlying().(*types.Slice).Elem()) {
+				reflectPanic("reflect.AppendSlice: " + typeString(s.t) + " != " + typeString(t.t))
+			}
+			cur0, _ := s.get().([]value)
+			src, _ := t.get().([]value)
+			add := make([]value, len(src))
+			for i := range src {
+				add[i] = copyVal(s.t.Underlying().(*types.Slice).Elem(), src[i])
+			}
+			return rv{t: s.t, p: appendLogged(cur0, add)}.enc()
+		},
 		"reflect.DeepEqual": func(fr *frame, args []value) value {
 			a, b := args[0].(iface), args[1].(iface)
 			if a.t == nil || b.t == nil {
